@@ -27,6 +27,14 @@ def execute(case):
     try:
         for be in lf.BACKENDS:
             lf.set_tenalg(be)
+            if c.get("late"):                                   # wrapper whose parts were replaced after construction
+                if c["bad"] != "none":
+                    runs["%s_late" % be] = lf.run_late_invalid(op, inp)
+                else:
+                    runs["%s_late" % be] = lf.run_views(op, inp, "object", objfactory=lambda: lf.late_object(op, inp))
+                    if be == "core":
+                        runs["%s_late_seq" % be] = lf.run_views(op, inp, "object", shared=True, objfactory=lambda: lf.late_object(op, inp))
+                continue
             if c["skip"] != -1 or c["tr"] or c["modes"]:       # Tucker view options
                 for how in ("tuple", "object"):
                     if how == "object" and (c["tr"] or c["modes"]):
